@@ -1,6 +1,7 @@
 package core
 
 import (
+	"go/constant"
 	"go/token"
 	"go/types"
 	"regexp"
@@ -39,7 +40,12 @@ type RetSink struct {
 	Chain []*ssa.BasicBlock
 	Lit   *Lit // extra condition under which this return has the outcome (value not constant)
 	Desc  string
-	Spec  RetSpec // the outcome this sink was selected for
+	Spec  RetSpec   // the outcome this sink was selected for
+	Val   ssa.Value // the value returned for the selected result (nil for "any")
+	// LitCond / LitWant: when Lit is "this condition has this truth value", the condition itself (for a second reading
+	// with small helpers rendered as what they return)
+	LitCond ssa.Value
+	LitWant bool
 }
 
 var nonNilErrCallee = regexp.MustCompile(`^(fmt\.Errorf|errors\.New|.*serrors\.Wrap|.*\.New\w*Error|.*reconcile\.TerminalError|.*\.Errorf|.*errors\.New\w*|.*\.NewNotFound|.*\.NewConflict)$`)
@@ -138,6 +144,17 @@ func (w *World) classifyRet(v ssa.Value, want string, at *ssa.BasicBlock) (yes b
 		}
 		l := Lit{false, w.Render(v) + " == nil"}
 		return false, false, &l
+	case "zero", "nonzero":
+		if c, ok := v.(*ssa.Const); ok {
+			isZero := c.Value == nil || (c.Value.Kind() == constant.String && constant.StringVal(c.Value) == "") ||
+				((c.Value.Kind() == constant.Int || c.Value.Kind() == constant.Float) && constant.Sign(c.Value) == 0) ||
+				(c.Value.Kind() == constant.Bool && !constant.BoolVal(c.Value))
+			if isZero == (want == "zero") {
+				return true, false, nil
+			}
+			return false, true, nil
+		}
+		return false, false, nil
 	case "true", "false":
 		wantTrue := want == "true"
 		if bv, ok := boolConst(v); ok {
@@ -193,7 +210,7 @@ func (w *World) ReturnSinks(fn *ssa.Function, spec RetSpec) []RetSink {
 						continue
 					}
 					_ = yes
-					rs := RetSink{Ret: ret, Pred: nchain[len(nchain)-1], Lit: lit, Desc: "return(phi edge " + w.RenderD(e, 4) + ")", Spec: spec}
+					rs := RetSink{Ret: ret, Pred: nchain[len(nchain)-1], Lit: lit, Desc: "return(phi edge " + w.RenderD(e, 4) + ")", Spec: spec, Val: e}
 					if len(nchain) > 1 {
 						rs.Chain = nchain
 					}
@@ -203,14 +220,42 @@ func (w *World) ReturnSinks(fn *ssa.Function, spec RetSpec) []RetSink {
 			expand(phi, nil, 0)
 			continue
 		}
+		// a value-level select: `return lo.Ternary(c, a, b)` returns a under c and b under ¬c
+		if c, a, bb, ok := w.ternaryOf(v); ok {
+			ya, na, la := w.classifyRet(a, spec.Want, b)
+			yb, nb, lb := w.classifyRet(bb, spec.Want, b)
+			if (ya || na) && (yb || nb) && la == nil && lb == nil {
+				if ya {
+					l := w.NormLit(c, true)
+					out = append(out, RetSink{Ret: ret, Lit: &l, Desc: "return " + w.RenderD(a, 4) + " (select, condition true)", Spec: spec, Val: a, LitCond: c, LitWant: true})
+				}
+				if yb {
+					l := w.NormLit(c, false)
+					out = append(out, RetSink{Ret: ret, Lit: &l, Desc: "return " + w.RenderD(bb, 4) + " (select, condition false)", Spec: spec, Val: bb, LitCond: c, LitWant: false})
+				}
+				continue
+			}
+		}
 		yes, no, lit := w.classifyRet(v, spec.Want, b)
 		if no {
 			continue
 		}
 		_ = yes
-		out = append(out, RetSink{Ret: ret, Lit: lit, Desc: "return " + w.RenderD(v, 4), Spec: spec})
+		out = append(out, RetSink{Ret: ret, Lit: lit, Desc: "return " + w.RenderD(v, 4), Spec: spec, Val: v})
 	}
 	return out
+}
+
+// ternaryOf recognises lo.Ternary(cond, a, b).
+func (w *World) ternaryOf(v ssa.Value) (cond, a, b ssa.Value, ok bool) {
+	c, isCall := v.(*ssa.Call)
+	if !isCall || len(c.Call.Args) != 3 {
+		return nil, nil, nil, false
+	}
+	if !strings.HasPrefix(w.CalleeName(c.Common()), "lo.Ternary[") {
+		return nil, nil, nil, false
+	}
+	return c.Call.Args[0], c.Call.Args[1], c.Call.Args[2], true
 }
 
 // RetGuarded: is the return sink guarded by gate g (within its own function) — or does it hand back the outcome of a helper
@@ -230,6 +275,16 @@ func (w *World) retGuardedHere(s RetSink, g Gate) bool {
 		for _, p := range g.Lits {
 			if p.Match(*s.Lit) {
 				return true
+			}
+		}
+		if s.LitCond != nil && !w.inlineTrivial {
+			w.inlineTrivial = true
+			l2 := w.NormLit(s.LitCond, s.LitWant)
+			w.inlineTrivial = false
+			for _, p := range g.Lits {
+				if p.Match(l2) {
+					return true
+				}
 			}
 		}
 	}
